@@ -571,6 +571,7 @@ func (c *Ctx) c05Flags() {
 	c.c05CancelKillsTheTreeFirst()
 	c.c05MarkedRunningBeforeAnythingThatMayBlock()
 	c.c05CommandDroppedOnlyWhenNotRunning()
+	c.c05SetupHandsItsContextOn()
 	// P6 monitor goroutine
 	if f := c.fn(spPkg, "(*subprocessMonitoring).runProcessMonitoring"); f != nil {
 		var body *ssa.Function
@@ -961,4 +962,56 @@ func (c *Ctx) c05CommandDroppedOnlyWhenNotRunning() {
 		c.check(bad == "", "P13", key, c.ipos(drops[0]), "the kept command is reset only where IsOn() answered false under the lock",
 			"the kept command is reset at "+bad+" without the subprocess having been found not running under the lock: two Start() calls that both passed the first, unlocked look at IsOn() — the second resets the command of the tree the first has just started and returns as a no-op; from then on Stop() and Restart() build a fresh command that was never started, kill nothing and wait for nothing, and the tree keeps running")
 	}
+}
+
+// c05SetupHandsItsContextOn (P14): "when a running subprocess is cancelled — by cancelling or timing out its context". The
+// context is the one the subprocess was last set up with: setup hands its context parameter to the monitoring on every path
+// (a monitoring object kept from an earlier setup keeps that setup's context, and the cancellation of the new one reaches
+// neither the command nor the goroutine that stops the tree).
+func (c *Ctx) c05SetupHandsItsContextOn() {
+	c.rule("P14", "setup hands its context parameter to the monitoring of the subprocess on every path to a successful return: the context a subprocess obeys is the one it was last set up with", 1)
+	f := c.fnOpt(spPkg, "(*Subprocess).setup")
+	if f == nil {
+		return
+	}
+	c.FuncsSeen[fname(f)] = true
+	var ctxP *ssa.Parameter
+	for _, p := range f.Params {
+		if strings.HasSuffix(p.Type().String(), "context.Context") {
+			ctxP = p
+		}
+	}
+	key := fname(f) + "/context-reaches-the-monitoring"
+	if ctxP == nil {
+		c.violate("P14", key, c.pos(f.Pos()), "setup no longer takes a context")
+		return
+	}
+	hands := func(in ssa.Instruction) bool {
+		cl, ok := in.(*ssa.Call)
+		if !ok {
+			return false
+		}
+		g := staticCallee(&cl.Call)
+		if g == nil || !inPkg(spPkg)(g) {
+			return false
+		}
+		for _, a := range cl.Call.Args {
+			if resolveValue(a) == ssa.Value(ctxP) {
+				return true
+			}
+		}
+		return false
+	}
+	any := false
+	allInstrs(f, func(in ssa.Instruction) { any = any || hands(in) })
+	if !any {
+		c.violate("P14", key, c.pos(f.Pos()), "setup hands its context to nothing in the package: the subprocess obeys no context")
+		return
+	}
+	esc := pathPruned(f, nil, hands, func(in ssa.Instruction) bool {
+		r, ok := in.(*ssa.Return)
+		return ok && !isErrorExit(f, r)
+	}, nil)
+	c.check(esc == nil, "P14", key, c.pos(f.Pos()), "every path to a successful return hands the context parameter to the monitoring",
+		"the return at "+iposOrEmpty(c, esc)+" can be reached without setup having handed its context on (the monitoring is created only the first time, or under a condition): a subprocess set up a second time with another context goes on obeying the first one — cancelling or timing out the context it was given stops nothing, Execute() returns only when the tree ends by itself and IsOn() stays true")
 }
